@@ -987,6 +987,21 @@ func genAlgebra(r *rand.Rand) logqIn {
 				g = stageIn{T: "line", Op: []string{"eq", "neq"}[r.Intn(2)], Val: B(pick(r, ipPats)), Re: eps, IP: true}
 			}
 		}
+		if r.Intn(8) == 0 {
+			// a filter on a record attribute right behind a stage that removed or rewrote that label (no parser in between):
+			// the filter judges what the stage left, whoever evaluates it
+			base = []stageIn{[]stageIn{
+				{T: "drop", Labels: IntsList{B("app")}},
+				{T: "keep", Labels: IntsList{B("msg")}},
+				{T: "labelfmt", Tmpls: []tmplIn{{Dst: B("app"), Parts: []partIn{{T: "lit", S: B("x")}}}}},
+				{T: "labelfmt", Renames: []renameIn{{Dst: B("was"), Src: B("app")}}},
+			}[r.Intn(4)]}
+			f = stageIn{T: "label", Pred: &predIn{T: "m", Label: B("app"), Op: allOps[r.Intn(2)], Val: B(pick(r, []string{"a", "b", "web", "", "x"})), Re: eps}}
+			in.Caps = []CapsIn{{Label: allOps, Line: allOps}}
+			if g.T == "line" && (g.Op == "neq" || g.Op == "nre") {
+				g.Op = map[string]string{"neq": "eq", "nre": "re"}[g.Op] // "| drop app != x" would be a drop matcher
+			}
+		}
 		in.Fam = "fg"
 		in.Queries = [][]stageIn{cat(base), cat(base, f), cat(base, negStage(f)), cat(base, f, g), cat(base, g, f), cat(base, f, f), cat(base, g),
 			cat(base, stageIn{T: "line", Op: "eq", Val: Ints{}, Re: eps})}
